@@ -56,39 +56,41 @@ func parentGoid() uint64 {
 
 // Task is one goroutine of the system under test or of a simulated client.
 type Task struct {
-	ID        int
-	Goid      uint64
-	Name      string // for harness-owned tasks
-	Site      string // where it is parked
-	Inst      int    // instance (node) it belongs to
-	BirthStep int
-	Parked    bool
-	Spins     int
-	Owned     bool // spawned by the harness (we know when it finishes)
-	Done      bool
-	Pass      bool // uncontrolled: hooks return immediately
-	kill      bool
-	wake      chan struct{}
+	ID          int
+	Goid        uint64
+	Name        string // for harness-owned tasks
+	Site        string // where it is parked
+	Bookkeeping bool   // parked at the store lock inside reconcileMemory (accounting pass after a write command)
+	Label       string // distinguishes siblings started in one loop (database index, peer address)
+	Inst        int    // instance (node) it belongs to
+	BirthStep   int
+	Parked      bool
+	Spins       int
+	Owned       bool // spawned by the harness (we know when it finishes)
+	Done        bool
+	Pass        bool // uncontrolled: hooks return immediately
+	kill        bool
+	wake        chan struct{}
 }
 
 // Sim is one simulated execution.
 type Sim struct {
-	mu        sync.Mutex
-	ctrl      uint64 // controller goroutine id
-	tasks     map[uint64]*Task
-	nextID    int
-	current   *Task
-	curInst   int
-	passAll   atomic.Bool
-	ksCalls   atomic.Int64    // keyspace-function entries (counted in every mode)
-	sites     map[string]bool // nil = all sites park; else only listed ones
+	mu         sync.Mutex
+	ctrl       uint64 // controller goroutine id
+	tasks      map[uint64]*Task
+	nextID     int
+	current    *Task
+	curInst    int
+	passAll    atomic.Bool
+	ksCalls    atomic.Int64           // keyspace-function entries (counted in every mode)
+	sites      map[string]bool        // nil = all sites park; else only listed ones
 	siteFilter func(site string) bool // if set, decides which sites park (overrides sites)
-	Step      int
-	Log       []string // event log (controller decisions, notes)
-	logOn     bool
-	Notes     []string
-	deadInst  map[int]bool
-	rewriting map[int]bool // instance currently inside RewriteLog (engine.mut held)
+	Step       int
+	Log        []string // event log (controller decisions, notes)
+	logOn      bool
+	Notes      []string
+	deadInst   map[int]bool
+	rewriting  map[int]bool // instance currently inside RewriteLog (engine.mut held)
 	// hooks for profiles
 	OnYieldOpp func(site string, t *Task) // fault/crash opportunity at selected yield sites (every mode)
 	OnNote     func(ev string, t *Task)
@@ -118,6 +120,7 @@ type Stats struct {
 	TasksSeen    int
 	MaxParked    int
 	SiteReleases map[string]int
+	EvHash       uint64 // hash of EVERY controller event (released task id and site, parked-task count afterwards, clock advances)
 }
 
 func newStats() Stats {
@@ -157,6 +160,7 @@ func (s *Sim) install() {
 	curSim.Store(s)
 	verifhook.Install(&verifhook.Hooks{
 		Yield:    s.hookYield,
+		YieldL:   s.hookYieldL,
 		Spin:     s.hookSpin,
 		Note:     s.hookNote,
 		Fault:    s.hookFault,
@@ -216,11 +220,18 @@ func (s *Sim) park(site string, spin bool) {
 		s.mu.Unlock()
 		return
 	}
-	if site == "lock.store" && holdsConnInfoLock() {
-		// SetConnectionInfo requests the store lock while holding the connection table's lock:
-		// parking here would block every other task on a sync.Mutex (not a durable block)
-		s.mu.Unlock()
-		return
+	t.Bookkeeping = false
+	if site == "lock.store" {
+		buf := make([]byte, 4096)
+		stack := buf[:runtime.Stack(buf, false)]
+		if holdsConnInfoLock(stack) {
+			// SetConnectionInfo requests the store lock while holding the connection table's lock:
+			// parking here would block every other task on a sync.Mutex (not a durable block)
+			s.mu.Unlock()
+			return
+		}
+		// the re-measuring pass after a write command (memory accounting only, no effect on the dataset)
+		t.Bookkeeping = bytes.Contains(stack, []byte("reconcileMemory"))
 	}
 	if s.deadInst[t.Inst] {
 		// instance crashed: this goroutine must not run any more of its code
@@ -245,15 +256,23 @@ func (s *Sim) park(site string, spin bool) {
 // yield sites that double as fault/crash opportunities
 var oppSites = map[string]bool{"cmd.after_handler": true, "cmd.after_log": true, "rewrite.after_preamble": true, "getState.done": true, "rewrite.lock": true}
 
-func holdsConnInfoLock() bool {
-	buf := make([]byte, 4096)
-	n := runtime.Stack(buf, false)
-	return bytes.Contains(buf[:n], []byte("getHandlerFuncParams.func")) && bytes.Contains(buf[:n], []byte("SetConnectionInfo")) ||
-		bytes.Contains(buf[:n], []byte("modules.go:1")) && bytes.Contains(buf[:n], []byte("connection.handle"))
+func holdsConnInfoLock(stack []byte) bool {
+	return bytes.Contains(stack, []byte("getHandlerFuncParams.func")) && bytes.Contains(stack, []byte("SetConnectionInfo")) ||
+		bytes.Contains(stack, []byte("modules.go:1")) && bytes.Contains(stack, []byte("connection.handle"))
 }
 
 func (s *Sim) hookYield(site string) { s.park(site, false) }
-func (s *Sim) hookSpin(site string)  { s.park("spin:"+site, true) }
+func (s *Sim) hookYieldL(site string, label any) {
+	if !s.passAll.Load() {
+		if g := goid(); g != s.ctrl {
+			s.mu.Lock()
+			s.taskFor(g).Label = fmt.Sprint(label)
+			s.mu.Unlock()
+		}
+	}
+	s.park(site, false)
+}
+func (s *Sim) hookSpin(site string) { s.park("spin:"+site, true) }
 
 func (s *Sim) callerTask() *Task {
 	g := goid()
@@ -383,6 +402,12 @@ func (s *Sim) ParkedTasks() []*Task {
 		if res[i].Owned {
 			return res[i].ID < res[j].ID
 		}
+		if res[i].Site != res[j].Site {
+			return res[i].Site < res[j].Site
+		}
+		if res[i].Label != res[j].Label {
+			return res[i].Label < res[j].Label
+		}
 		return res[i].Goid < res[j].Goid
 	})
 	if len(res) > s.Stats.MaxParked {
@@ -403,8 +428,10 @@ func (s *Sim) Release(t *Task) {
 	s.Stats.Releases++
 	s.Stats.SiteReleases[siteClass(site)]++
 	s.logf("run t%d %s", t.ID, site)
+	s.foldEvent(fmt.Sprintf("r%d %s %s", t.BirthStep, site, t.Label))
 	t.wake <- struct{}{}
 	s.Settle()
+	s.foldEvent(fmt.Sprintf("p%d", s.parkedCount()))
 	s.mu.Lock()
 	s.current = nil
 	s.mu.Unlock()
@@ -424,6 +451,7 @@ func (s *Sim) Advance(d time.Duration) {
 	s.Stats.ClockAdv++
 	s.Stats.SimTime += d
 	s.logf("advance %v", d)
+	s.foldEvent(fmt.Sprintf("a%d", d))
 	time.Sleep(d)
 	s.Settle()
 }
@@ -432,6 +460,32 @@ func (s *Sim) Advance(d time.Duration) {
 func (s *Sim) AdvanceSync(d time.Duration) {
 	s.Advance(d)
 	s.DrainAll(2000)
+}
+
+func (s *Sim) foldEvent(what string) {
+	h := s.Stats.EvHash
+	if h == 0 {
+		h = 1469598103934665603
+	}
+	for i := 0; i < len(what); i++ {
+		h ^= uint64(what[i])
+		h *= 1099511628211
+	}
+	h ^= 0xfe
+	h *= 1099511628211
+	s.Stats.EvHash = h
+}
+
+func (s *Sim) parkedCount() int {
+	s.mu.Lock()
+	defer s.mu.Unlock()
+	n := 0
+	for _, t := range s.tasks {
+		if t.Parked {
+			n++
+		}
+	}
+	return n
 }
 
 // noteChoice folds a decision into the schedule hash.
